@@ -75,8 +75,17 @@ theorem be32_decode (n : Nat) (h : n < 4294967296) :
 
 theorem decode_prefix (node : Bytes) (pn : Nat) (r : Bytes) (h : node.length < 4294967296) :
     decodeKey (be32 node.length ++ node ++ [pn] ++ r) = some (node, pn, r) := by
-  simp only [be32, List.cons_append, List.nil_append, List.append_assoc, decodeKey]
+  have e : be32 node.length ++ node ++ [pn] ++ r =
+      (node.length / 16777216 % 256) :: (node.length / 65536 % 256) :: (node.length / 256 % 256) ::
+        (node.length % 256) :: (node ++ pn :: r) := by
+    simp only [be32, List.cons_append, List.nil_append, List.append_assoc]
+  rw [e]
+  unfold decodeKey
+  simp only []
   rw [be32_decode _ h]
-  simp
+  have hd : (node ++ pn :: r).drop node.length = pn :: r := List.drop_left
+  have ht : (node ++ pn :: r).take node.length = node := List.take_left
+  rw [hd]
+  simp only [ht, List.length_append, Nat.le_add_right, if_true]
 
 end Radix.Stores
